@@ -378,7 +378,7 @@ impl Property for C18 {
         ]
     }
     fn pbt(&self, tier: Tier) -> PbtCfg {
-        PbtCfg { cases: tier.pick(200_000, 8_000_000), max_len: tier.pick(500, 1600), shrink_ms: 120_000 }
+        PbtCfg { cases: tier.pick(200_000, 4_000_000), max_len: tier.pick(500, 1600), shrink_ms: 120_000 }
     }
     fn required_labels(&self) -> Vec<&'static str> {
         vec!["lost_request", "lost_challenge", "lost_response", "lost_keepalive", "silent_first_address", "limit_raised", "limit_lowered", "forged_in_silence", "server_timeout", "client_timeout", "heal_obligation", "streaming", "timeouts_disabled", "challenge_then_silent_address"]
